@@ -116,6 +116,12 @@ func c09Verdict(r *mc.Report, nw *c09Net, c c09Case) {
 		if cl&c09InFlight != 0 {
 			bn.P.VerifMarkTransferring(keys[i : i+1])
 		}
+		if cl&c09LookupFails != 0 {
+			if st.failing == nil {
+				st.failing = map[string]bool{}
+			}
+			st.failing[string(keys[i])] = true
+		}
 	}
 	for i := 0; i < c.Taken; i++ {
 		bn.P.Utp.GetInboundPermit() // held for the whole case, through the real controller
@@ -240,7 +246,7 @@ func c09Verdict(r *mc.Report, nw *c09Net, c c09Case) {
 
 // c09VerdictCases enumerates part 1.
 func c09VerdictCases(thorough bool, emit func(c09Case)) {
-	classes := []int{0, c09Stored, c09InFlight, c09Out, c09Stored | c09InFlight}
+	classes := []int{0, c09Stored, c09InFlight, c09Out, c09Stored | c09InFlight, c09LookupFails}
 	var vectors []c09Case
 	var rec func(v, cls []int, max int)
 	rec = func(v, cls []int, max int) {
